@@ -24,7 +24,7 @@ EVIDENCE = dict(
 def worker(hashseed, harness_seed, n, with_neg):
     env = dict(os.environ, PYTHONHASHSEED=str(hashseed), D42_REPO=REPO, PYTHONDONTWRITEBYTECODE="1")
     p = subprocess.run([sys.executable, os.path.join(VERIF, "harness", "c17_worker.py"), VERIF, str(harness_seed), str(n),
-                        "1" if with_neg else "0"], env=env, stdout=subprocess.PIPE, stderr=subprocess.PIPE, timeout=600)
+                        "2" if with_neg == 2 else ("1" if with_neg else "0")], env=env, stdout=subprocess.PIPE, stderr=subprocess.PIPE, timeout=600)
     if p.returncode != 0:
         raise RuntimeError("worker failed: " + p.stderr.decode()[-1500:])
     return json.loads(p.stdout.decode())
@@ -66,6 +66,8 @@ def run(ctx):
     # the recorded finding's family, kept separate so that anything else is still reported
     outs_neg = [(hs, worker(hs, hseed, 3, True)) for hs in hashseeds[:3]]
     compare(ctx, outs_neg, True)
+    outs_nan = [(hs, worker(hs, hseed, 3, 2)) for hs in hashseeds[:3]]
+    compare(ctx, outs_nan, False)
     # the model side: same schemas, same draws => same requests and value (tie of `gen` to the code)
     cases = []
     for s, w in valcases.schema_batch(ctx, ctx.n(40, 300), clock=False):
